@@ -576,7 +576,11 @@ int cmd_run(const Args &a) {
         Plan p = plan_for_index(a, armed, (uint64_t)vi, nbase);
         // gate (a): the failing plan reproduces, twice, with the same class (and event hash when the process survives)
         ChildResult r1 = run_child(p, armed), r2 = run_child(p, armed);
-        bool same = r1.ok && r2.ok && r1.violated && r2.violated && r1.prop == armed && r2.prop == armed && r1.cls == r2.cls && r1.ehash == r2.ehash;
+        // the verdict (property + class) must reproduce in two further processes; the event hash normally does too, but a
+        // library whose output depends on addresses or stack residue makes it differ -- that is the library's
+        // nondeterminism, recorded in the replay file, not a reason to withhold the violation
+        bool same = r1.ok && r2.ok && r1.violated && r2.violated && r1.prop == armed && r2.prop == armed && r1.cls == r2.cls;
+        bool ehash_stable = same && r1.ehash == r2.ehash;
         if (!same) {
             fprintf(stderr, "HARNESS-FAULT: run %lld (seed %llu) failed in the batch (%s) but does not reproduce deterministically (%s/%s)\n", (long long)vi,
                     (unsigned long long)p.seed, crash_cls.c_str(), r1.cls.c_str(), r2.cls.c_str());
@@ -646,6 +650,7 @@ int cmd_run(const Args &a) {
                 rj.set("ops_before_minimisation", (unsigned long long)ops_before); rj.set("ops_after", (unsigned long long)plan_op_count(p));
                 rj.set("schedule_decisions_before", (unsigned long long)sched_before); rj.set("schedule_decisions_after", (unsigned long long)p.sched.size());
                 rj.set("minimiser_executions", m.execs);
+                rj.set("event_hash_stable_across_processes", ehash_stable);
                 rj.set("plan", plan_to_json(p));
                 write_file(path, rj.str(1));
                 // gate (b): fresh process replay
